@@ -184,17 +184,17 @@ func main() {
 	eng := engines[*engName]
 	if eng == nil {
 		fmt.Fprintln(os.Stderr, "unknown engine", *engName)
-		os.Exit(2)
+		os.Exit(4)
 	}
 	if *sitesPath != "" {
 		b, err := os.ReadFile(*sitesPath)
 		if err != nil {
 			fmt.Fprintln(os.Stderr, err)
-			os.Exit(2)
+			os.Exit(4)
 		}
 		if err := json.Unmarshal(b, &sites); err != nil {
 			fmt.Fprintln(os.Stderr, err)
-			os.Exit(2)
+			os.Exit(4)
 		}
 		cl := make([]uint8, len(sites))
 		lp := make([]bool, len(sites))
@@ -218,14 +218,14 @@ func main() {
 		b, err := os.ReadFile(*replayPath)
 		if err != nil {
 			fmt.Fprintln(os.Stderr, err)
-			os.Exit(2)
+			os.Exit(4)
 		}
 		var rf struct {
 			Tape []uint32 `json:"tape"`
 		}
 		if err := json.Unmarshal(b, &rf); err != nil {
 			fmt.Fprintln(os.Stderr, err)
-			os.Exit(2)
+			os.Exit(4)
 		}
 		replayTape = rf.Tape
 		*runs = 1
@@ -278,7 +278,7 @@ func main() {
 			continue
 		}
 		if err := enc.Encode(res); err != nil {
-			os.Exit(2)
+			os.Exit(4)
 		}
 		if res.Viol != nil || res.Fatal {
 			out.Flush()
